@@ -64,6 +64,7 @@ class Ctx(object):
         self.findings = [f for f in load_json(FINDINGS_FILE, {'findings': []})['findings']
                          if f.get('property') == prop]
         self.known_hits = {}      # finding id -> count
+        self.known_infos = {}     # finding id -> [info]   (maintenance: tools/refine_findings.py)
         self.known_lines = []
         self.violations = []      # (replay path, suffix)
         self.cov = dict(obligations=0, discharged=0, checker_cmd='', trusted_base=list(TRUSTED_COMMON),
@@ -137,6 +138,8 @@ class Ctx(object):
                     self.known_hits[fid] = 0
                     self.known_lines.append('KNOWN-FINDING: property=%s %s: %s' % (self.prop, fid, f.get('what', kind)))
                 self.known_hits[fid] += 1
+                if isinstance(info, dict) and len(self.known_infos.setdefault(fid, [])) < 2000:
+                    self.known_infos[fid].append(info)
                 return True
         key = (where, kind)
         for v in self.violations:
@@ -171,6 +174,9 @@ class Ctx(object):
             json.dump(ev, fh, indent=1, sort_keys=True, default=str)
         if os.environ.get('VERIF_WRITE_FINDINGS'):
             self.write_findings()
+        if os.environ.get('VERIF_DUMP_SAMPLES'):
+            with open(os.environ['VERIF_DUMP_SAMPLES'], 'w') as fh:
+                json.dump(self.known_infos, fh, default=str)
         for line in self.known_lines:
             print(line)
         for v in self.violations:
@@ -184,7 +190,22 @@ class Ctx(object):
         sys.exit(1 if self.violations else 0)
 
 
+def sig_clause(fails):
+    """Findings are tied to the failure signatures seen ('sig' = a categorical summary of the failing case computed by the oracle:
+    corruption kind and field, minimal history, ...): a failure with another signature is a different violation."""
+    sigs = sorted({f['sig'] for f in fails if isinstance(f, dict) and isinstance(f.get('sig'), str)})
+    return ('sig in %r' % (sigs,)) if sigs else None
+
+
 def infer_when(fails, passes):
+    when, how = infer_when_int(fails, passes)
+    sc = sig_clause(fails)
+    if sc:
+        return (sc if when == 'always' else '(%s) and (%s)' % (sc, when)), how + '; signatures of the failing cases'
+    return when, how
+
+
+def infer_when_int(fails, passes):
     """Simplest predicate over integer-valued info keys that holds on every failing sample and on no passing one."""
     if not passes:
         return 'always', 'no passing sample of this protocol was seen'
